@@ -131,6 +131,9 @@ async def _run(case, obs):
             await r.write_eof()
             srv["wrote_all"] = True
             return r
+        if request.path == "/after":
+            data2 = await request.read()          # the follow-up request of the upfail scenarios
+            return web.Response(text=f"{len(data2)}:{hashlib.sha1(data2).hexdigest()}")
         got = bytearray()
         srv["got"] = got
         try:
@@ -199,6 +202,15 @@ async def _run(case, obs):
                     raise
                 cli["exc"] = type(e).__name__
             cli["vt"] = loop.time() - t0
+            if kind == "upfail":
+                # history: the session (and its connector) must be usable after a failed upload
+                try:
+                    async with s.post("http://example.test/after", data=b"after") as r2:
+                        cli["second"] = (r2.status, await r2.text())
+                except BaseException as e:  # noqa
+                    if isinstance(e, (KeyboardInterrupt, SystemExit)):
+                        raise
+                    cli["second_exc"] = type(e).__name__
             for _ in range(20):
                 await asyncio.sleep(0)
             # give a handler that is still waiting for body bytes the chance to see the connection end
@@ -512,6 +524,10 @@ def oracle(ctx, case, obs):
         if failed and cli.get("complete"):
             V(f"failed-upload-reported-success/{fr}-{case.get('source')}",
               f"the body source raised {case.get('exc')} but the client call returned status {cli.get('status')}")
+        exp2 = (200, f"5:{hashlib.sha1(b'after').hexdigest()}")
+        if cli.get("second_exc") or cli.get("second") != exp2:
+            V(f"next-request-broken/after-{'failed' if failed else 'complete'}-upload-{fr}",
+              f"the request after the upload got {cli.get('second_exc') or cli.get('second')} (first call: {cli.get('exc') or cli.get('status')})")
         if not failed and (not srv.get("complete") or got != body):
             V(f"request-body-differs/upload-{fr}-{case.get('source')}", f"sent {n}, handler read {len(got)} complete={srv.get('complete')}")
 
